@@ -101,7 +101,7 @@ def handleWire (op : String) (args : List String) : Option String :=
         | .panic s => "panic " ++ s
       some (m ++ "\tok " ++ v)
     | _, _, _ => none
-  | "nat.decode", [_name, h, e, t] =>
+  | "nat.decode", [name, h, e, t] =>
     match bytesOfHex h, (Sexp.parse e).bind Env.ofSexp, (Sexp.parse t).bind Ty.ofSexp with
     | some bs, some env, some ty =>
       let run (a b : Bool) := match decodeArgs bs env [ty] a b with
@@ -113,14 +113,14 @@ def handleWire (op : String) (args : List String) : Option String :=
       let sp := run true true
       let tup := match parseHeader bs with
         | .ok (hd, _) => (match hd.args with
-            | w :: _ => tupleNonPositional (mergeEnv hd.table env [ty]).1 64 w ((mergeEnv hd.table env [ty]).2.headD ty)
+            | w :: _ => tupleNonPositionalX (mergeEnv hd.table env [ty]).1 ((name.splitOn "Map").length > 1) 64 w ((mergeEnv hd.table env [ty]).2.headD ty)
             | [] => false)
         | _ => false
       let tags := (if run false true ≠ sp then ["mu-opt"] else []) ++ (if run true false ≠ sp then ["empty-record-ref"] else [])
         ++ (if tup then ["tuple-nonpositional"] else [])
       some (im ++ "\t" ++ sp ++ "\t" ++ ",".intercalate tags)
     | _, _, _ => none
-  | "nat.decodeU", [_name, h, e, t] =>
+  | "nat.decodeU", [name, h, e, t] =>
     match bytesOfHex h, (Sexp.parse e).bind Env.ofSexp, (Sexp.parse t).bind Ty.ofSexp with
     | some bs, some env, some ty =>
       let run (a b : Bool) := match decodeArgs bs env [ty] a b with
@@ -130,8 +130,14 @@ def handleWire (op : String) (args : List String) : Option String :=
         | .panic s => "panic " ++ s
       let im := run false false
       let sp := run true true
+      let tup : Bool := match parseHeader bs with
+        | .ok (hd, _) => (match hd.args with
+            | w :: _ => tupleNonPositionalX (mergeEnv hd.table env [ty]).1 ((name.splitOn "Map").length > 1) 64 w ((mergeEnv hd.table env [ty]).2.headD ty)
+            | [] => false)
+        | _ => false
       let tags := (if run false true ≠ sp then ["mu-opt"] else []) ++ (if run true false ≠ sp then ["empty-record-ref"] else [])
-      some (im ++ "\t" ++ sp ++ (if im ≠ sp then "\t" ++ ",".intercalate tags else ""))
+        ++ (if tup then ["tuple-nonpositional"] else [])
+      some (im ++ "\t" ++ sp ++ (if im ≠ sp ∨ tup = true then "\t" ++ ",".intercalate tags else ""))
     | _, _, _ => none
   | "nat.bounded", [_name, h, e, t, within] =>
     match bytesOfHex h, (Sexp.parse e).bind Env.ofSexp, (Sexp.parse t).bind Ty.ofSexp with
